@@ -54,3 +54,153 @@ fn c02_effective_name_with_non_ascii_version() {
     let r = std::panic::catch_unwind(|| m.get_mapping_effective_path_name_and_version(Some("lib.so.1".to_string())).is_ok());
     assert!(r.is_ok(), "get_mapping_effective_path_name_and_version panicked on a name the kernel can report");
 }
+
+// ---------------------------------------------------------------------------
+// C13, tier B′ (bounded-exhaustive, native): MappingInfo::aggregate (through procfs-core's real parser) on
+// EVERY memory map of 1..=3 lines over this per-line domain (64 lines per position, 266 304 maps):
+//   placement : directly after the previous line, or after a one-page hole
+//   size      : one page
+//   perms     : r-xp, rw-p, r--p, ---p
+//   offset    : 0 or 0x1000
+//   name      : none, /a, /b, "/a (deleted)"
+// plus, for each map, every choice of vDSO address among {none, start of line k}.
+// Checked against the statement (independent reference predicates, no re-implementation of the merge loop):
+//   P1 ascending, no overlaps            P2 every line lies in exactly one derived mapping
+//   P3 a derived mapping is exactly the hull of the consecutive, contiguous lines inside it
+//   P4 two neighbouring lines share a derived mapping only if contiguous and (same name, or one of them is
+//      the linker's inaccessible reserved gap after / between parts of an executable file mapping)
+//   P5 the non-path line that starts at the vDSO address is named linux-gate.so
+// ---------------------------------------------------------------------------
+#[derive(Clone, Copy, PartialEq, Debug)]
+struct Line { start: usize, end: usize, perms: usize, offset: usize, name: usize }
+
+const PERMS: [&str; 4] = ["r-xp", "rw-p", "r--p", "---p"];
+const NAMES: [&str; 4] = ["", "/a", "/b", "/a (deleted)"];
+
+fn render(lines: &[Line]) -> String {
+    let mut s = String::new();
+    for l in lines {
+        // procfs-core wants the trailing space on anonymous lines
+        s.push_str(&format!("{:x}-{:x} {} {:08x} 00:00 0 {}\n", l.start, l.end, PERMS[l.perms], l.offset, NAMES[l.name]));
+    }
+    s
+}
+
+fn sanitized(name: usize) -> Option<&'static str> {
+    match name { 0 => None, 1 | 3 => Some("/a"), _ => Some("/b") }
+}
+fn inaccessible(l: &Line) -> bool { l.perms == 3 }
+fn executable(l: &Line) -> bool { l.perms == 0 }
+
+fn check_map(lines: &[Line], gate: Option<usize>, n_eval: &mut usize) -> std::result::Result<(), String> {
+    use procfs_core::FromRead;
+    let text = render(lines);
+    let maps = MemoryMaps::from_read(text.as_bytes()).map_err(|e| format!("parser rejected the map: {e:?}"))?;
+    let out = MappingInfo::aggregate(maps, gate.map(|g| g as u64)).map_err(|e| format!("aggregate failed: {e:?}"))?;
+    *n_eval += 1;
+    // P1
+    for w in out.windows(2) {
+        if !(w[0].start_address + w[0].size <= w[1].start_address) {
+            return Err(format!("P1 order/overlap: {:x}+{:x} then {:x}", w[0].start_address, w[0].size, w[1].start_address));
+        }
+    }
+    // P2 + membership
+    let mut owner = Vec::new();
+    for l in lines {
+        let holders: Vec<usize> = out.iter().enumerate()
+            .filter(|(_, m)| m.start_address <= l.start && l.end <= m.start_address + m.size).map(|(i, _)| i).collect();
+        if holders.len() != 1 {
+            return Err(format!("P2 line {:x}-{:x} is contained in {} derived mappings", l.start, l.end, holders.len()));
+        }
+        owner.push(holders[0]);
+    }
+    // P3
+    for (i, m) in out.iter().enumerate() {
+        let mine: Vec<&Line> = lines.iter().zip(&owner).filter(|(_, o)| **o == i).map(|(l, _)| l).collect();
+        if mine.is_empty() { return Err(format!("P3 derived mapping {:x} holds no line", m.start_address)); }
+        let lo = mine.first().unwrap().start;
+        let hi = mine.last().unwrap().end;
+        if m.start_address != lo || m.start_address + m.size != hi {
+            return Err(format!("P3 extent {:x}-{:x} is not the hull {:x}-{:x}", m.start_address, m.start_address + m.size, lo, hi));
+        }
+        for w in mine.windows(2) {
+            if w[0].end != w[1].start { return Err("P3 a hole inside a derived mapping".to_string()); }
+        }
+    }
+    // P4: every line that joins an existing group does so under one of the three rules
+    for k in 1..lines.len() {
+        if owner[k] != owner[k - 1] { continue; }
+        let l = &lines[k];
+        let is_gate = |x: &Line| gate == Some(x.start) && !NAMES[x.name].contains('/');
+        let name_of = |x: &Line| if is_gate(x) { Some("linux-gate.so") } else { sanitized(x.name) };
+        let first = (0..k).rev().take_while(|&j| owner[j] == owner[k]).last().unwrap();
+        let group_name = name_of(&lines[first]);
+        let group_is_file = group_name.map_or(false, |n| n.contains('/'));
+        // (1) it carries the name of the derived mapping
+        let same_name = group_name.is_some() && name_of(l) == group_name;
+        // (2) inaccessible reserved gap directly after an executable file mapping
+        let gap_after_exec = inaccessible(l) && group_is_file && (first..k).any(|j| executable(&lines[j]));
+        // (3) anonymous inaccessible page between two parts of the same file mapping
+        let gap_between = inaccessible(l) && sanitized(l.name).is_none() && l.offset == 0 && group_is_file
+            && k + 1 < lines.len() && owner[k + 1] == owner[k] && name_of(&lines[k + 1]) == group_name;
+        if !(same_name || gap_after_exec || gap_between) {
+            return Err(format!("P4 line {k} joined the mapping that starts at line {first} without a rule: {l:?}"));
+        }
+    }
+    // P5
+    if let Some(g) = gate {
+        for (l, &o) in lines.iter().zip(&owner) {
+            if l.start == g && !NAMES[l.name].contains('/') && out[o].start_address == g {
+                if out[o].name.as_deref() != Some(OsStr::new(LINUX_GATE_LIBRARY_NAME)) {
+                    return Err(format!("P5 the mapping at the vDSO address {g:x} is named {:?}", out[o].name));
+                }
+            }
+        }
+    }
+    Ok(())
+}
+
+fn enumerate_maps(max_lines: usize) -> (usize, Option<String>) {
+    let base = 0x7f00_0000_0000usize;
+    let mut n_eval = 0usize;
+    let per_line = 2 * 4 * 2 * 4;
+    for n in 1..=max_lines {
+        let total = (per_line as u64).pow(n as u32);
+        for code in 0..total {
+            let mut c = code;
+            let mut lines = Vec::with_capacity(n);
+            let mut cursor = base;
+            for _ in 0..n {
+                let d = (c % per_line as u64) as usize;
+                c /= per_line as u64;
+                let hole = d & 1; let perms = (d >> 1) & 3; let off = (d >> 3) & 1; let name = (d >> 4) & 3;
+                let start = cursor + hole * 0x1000;
+                let end = start + 0x1000;
+                lines.push(Line { start, end, perms, offset: off * 0x1000, name });
+                cursor = end;
+            }
+            let mut gates = vec![None];
+            gates.extend(lines.iter().map(|l| Some(l.start)));
+            for g in gates {
+                if let Err(e) = check_map(&lines, g, &mut n_eval) {
+                    return (n_eval, Some(format!("{e}\nvdso={g:x?}\n{}", render(&lines))));
+                }
+            }
+        }
+    }
+    (n_eval, None)
+}
+
+#[test]
+fn bprime_aggregate_up_to_2_lines() {
+    let (n, bad) = enumerate_maps(2);
+    println!("BPRIME evaluations={n}");
+    assert!(bad.is_none(), "aggregate violates the statement on:\n{}", bad.unwrap());
+}
+
+#[test]
+fn bprime_aggregate_up_to_3_lines() {
+    let (n, bad) = enumerate_maps(3);
+    println!("BPRIME evaluations={n}");
+    assert!(bad.is_none(), "aggregate violates the statement on:\n{}", bad.unwrap());
+}
